@@ -302,7 +302,7 @@ def entropyCore (d : Nat) (detSqrt : α) : α :=
   let det := detSqrt * detSqrt
   mulAdd (ln det) (0.5 : α) ((halfLn2PiE : α) * ofNatR d)
 
-/-- `mvg.rs:504-520` with `quad = ((x̄−μ)ᵀ Σ⁻¹ (x̄−μ))[0]`, `tr = (Σ⁻¹ σ̂).trace()`, `lnCovDet = cov_chol.ln_determinant()` -/
+/-- `mvg.rs:507-523` (the non-empty branch of `ln_f_stat`) with `quad = ((x̄−μ)ᵀ Σ⁻¹ (x̄−μ))[0]`, `tr = (Σ⁻¹ σ̂).trace()`, `lnCovDet = cov_chol.ln_determinant()` -/
 def lnFStatCore (n k : Nat) (lnCovDet quad tr : α) : α :=
   let nf : α := ofNatR n
   let kf : α := ofNatR k
@@ -457,16 +457,18 @@ def MvGaussianSuffStat.forget (self : MvGaussianSuffStat α) (x : Vec α) : MvGa
 def MvGaussianSuffStat.observe_many (self : MvGaussianSuffStat α) (xs : List (Vec α)) : MvGaussianSuffStat α :=
   xs.foldl MvGaussianSuffStat.observe self
 
-/-- `ln_f_stat` (`mvg.rs:503-521`) -/
+/-- `ln_f_stat` (`mvg.rs:503-524`); the empty statistic returns `0.0` (:504-506, commit ed8aba1) -/
 def MvGaussian.ln_f_stat (self : MvGaussian α) (stat : MvGaussianSuffStat α) : α :=
-  let n : α := ofNatR stat.n                                                         -- :504
-  let x_bar := vdivs stat.sum_x n                                                    -- :506
-  let sigma_hat := msub stat.sum_x_sq (mdivs (outer stat.sum_x stat.sum_x) n)        -- :507-508
-  let sigma_inv := self.cache.cov_inv                                                -- :509
-  let ln_cov_det := cholLnDet self.cache.cov_chol                                    -- :510
-  lnFStatCore stat.n stat.sum_x.length ln_cov_det
-    (quadForm sigma_inv (vsub x_bar self.mu))                                        -- :516-518
-    (trace (matMul sigma_inv sigma_hat))                                             -- :519
+  if stat.n = 0 then (0.0 : α)                                                       -- :504-506
+  else
+    let n : α := ofNatR stat.n                                                       -- :507
+    let x_bar := vdivs stat.sum_x n                                                  -- :509
+    let sigma_hat := msub stat.sum_x_sq (mdivs (outer stat.sum_x stat.sum_x) n)      -- :510-511
+    let sigma_inv := self.cache.cov_inv                                              -- :512
+    let ln_cov_det := cholLnDet self.cache.cov_chol                                  -- :513
+    lnFStatCore stat.n stat.sum_x.length ln_cov_det
+      (quadForm sigma_inv (vsub x_bar self.mu))                                      -- :519-521
+      (trace (matMul sigma_inv sigma_hat))                                           -- :522
 
 end Stat
 
@@ -544,10 +546,10 @@ structure NormalInvWishart (α : Type) where
 section NIW
 variable {α : Type} [RealLike α]
 
-/-- `validate_params` (`niw.rs:101-125`).  `k <= 0.0` is false for NaN: a NaN `k` passes. -/
+/-- `validate_params` (`niw.rs:101-125`).  The test is `!(k > 0.0)` (commit 395fe75): a NaN `k` is rejected. -/
 def NormalInvWishart.validate_params (mu : Vec α) (k : α) (df : Nat) (scale : Mat α) : Except (Err α) Unit :=
   let ndims := mu.length                                                             -- :107
-  if le k (0.0 : α) = true then .error (Err.mk "KTooLow" [k])                        -- :108
+  if ¬ (gt k (0.0 : α) = true) then .error (Err.mk "KTooLow" [k])                    -- :108
   else if df < ndims then .error (Err.mk "DfLessThanDimensions" [ofNatR df, ofNatR ndims])          -- :110
   else if ¬ (isSquare scale = true) then                                             -- :112
     .error (Err.mk "ScaleMatrixNotSquare" [ofNatR (nrows scale), ofNatR (ncols scale)])
@@ -563,7 +565,7 @@ def NormalInvWishart.new (mu : Vec α) (k : α) (df : Nat) (scale : Mat α) : Ex
 
 /-- `set_k` (`niw.rs:178-185`) -/
 def NormalInvWishart.set_k (self : NormalInvWishart α) (k : α) : Except (Err α) (NormalInvWishart α) :=
-  if le k (0.0 : α) = true then .error (Err.mk "KTooLow" [k]) else .ok { self with k := k }
+  if ¬ (gt k (0.0 : α) = true) then .error (Err.mk "KTooLow" [k]) else .ok { self with k := k }     -- :179
 
 /-- `set_df` (`niw.rs:201-209`) -/
 def NormalInvWishart.set_df (self : NormalInvWishart α) (df : Nat) : Except (Err α) (NormalInvWishart α) :=
